@@ -4,6 +4,8 @@ import Driver.Str
 import Driver.Seq
 import Driver.Hash
 import Driver.Lock
+import Driver.HashTbl
+import Driver.ListTbl
 
 def main (args : List String) : IO UInt32 := do
   match args with
@@ -15,4 +17,6 @@ def main (args : List String) : IO UInt32 := do
   | ["hash"] => Driver.Hash.run; return 0
   | ["hashspec"] => Driver.Hash.runSpec; return 0
   | ["lock"] => Driver.Lock.run; return 0
+  | ["hashtbl"] => Driver.HashTbl.run; return 0
+  | ["listtbl"] => Driver.ListTbl.run; return 0
   | _ => IO.eprintln "usage: qdriver <module>"; return 2
